@@ -35,26 +35,40 @@ variable {α : Type} [Add α] [Sub α] [Div α] [Neg α] [OfNat α 0] [OfNat α 
 
 /-- The cover of a point is its tile. -/
 theorem cover_point (ops : Ops α) (frac : Pt α → Pt α) (zoom fuel : Nat) (p : Pt α) :
-    cover ops frac zoom fuel (.point p) = .ok [tileAt ops (frac p) zoom] :=
+    cover ops frac zoom fuel (.point p) = .ok [tileAt ops p.x (frac p) zoom] :=
   cover_point' ops frac zoom fuel p
 
-/-- `maptile.At` below `Fraction`: truncate both coordinates, clamp the column to the last one. -/
-theorem tileAt_spec (ops : Ops α) (f : Pt α) (zoom : Nat) (hz : zoom ≤ 31) :
-    tileAt ops f zoom = ⟨Nat.min (ops.toU32 f.x) (2 ^ zoom - 1), ops.toU32 f.y, zoom⟩ :=
-  tileAt_spec' ops f zoom hz
+/-- `maptile.At` below `Fraction`: truncate both coordinates, clamp the column to the last one, then step
+    back one column when the longitude lies west of that column's west edge
+    `360*(x/2^zoom - 0.5)` (fix 190fad1: `lon/360 + 0.5` is rounded and can land on the edge). -/
+theorem tileAt_spec (ops : Ops α) (lon : α) (f : Pt α) (zoom : Nat) (hz : zoom ≤ 31) :
+    tileAt ops lon f zoom =
+      (let x := Nat.min (ops.toU32 f.x) (2 ^ zoom - 1)
+       ⟨if 0 < x ∧ lon < ops.westEdge x (2 ^ zoom) then x - 1 else x, ops.toU32 f.y, zoom⟩) :=
+  tileAt_spec' ops lon f zoom hz
+
+/-- The step-back keeps the column consistent with `Tile.Bound()`: a positive result column that was not
+    stepped back has its west edge at or west of the longitude (`¬ lon < edge`); otherwise the result is
+    the column just west of an edge that the longitude lies west of. -/
+theorem tileAt_column (ops : Ops α) (lon : α) (f : Pt α) (zoom : Nat) (hz : zoom ≤ 31) :
+    let x := Nat.min (ops.toU32 f.x) (2 ^ zoom - 1)
+    let t := tileAt ops lon f zoom
+    (t.x = x ∧ (0 < x → ¬ lon < ops.westEdge x (2 ^ zoom))) ∨
+    (t.x + 1 = x ∧ lon < ops.westEdge x (2 ^ zoom)) :=
+  tileAt_column' ops lon f zoom hz
 
 /-- The cover of a multi-point is the set of its points' tiles. -/
 theorem cover_multiPoint (ops : Ops α) (frac : Pt α → Pt α) (zoom fuel : Nat) (ps : List (Pt α)) :
     ∃ S, cover ops frac zoom fuel (.multiPoint ps) = .ok S ∧
-      ∀ t, t ∈ S ↔ ∃ p ∈ ps, t = tileAt ops (frac p) zoom :=
+      ∀ t, t ∈ S ↔ ∃ p ∈ ps, t = tileAt ops p.x (frac p) zoom :=
   cover_multiPoint' ops frac zoom fuel ps
 
 /-- The cover of a bound is the rectangular range between the corner tiles (nothing for an empty bound). -/
 theorem cover_bound_rect (ops : Ops α) (frac : Pt α → Pt α) (zoom fuel : Nat) (a b : Pt α) :
     ∃ S, cover ops frac zoom fuel (.bound a b) = .ok S ∧
       ∀ t, t ∈ S ↔ (¬ (b.x < a.x ∨ b.y < a.y) ∧ t.z = zoom ∧
-        (tileAt ops (frac a) zoom).x ≤ t.x ∧ t.x ≤ (tileAt ops (frac b) zoom).x ∧
-        (tileAt ops (frac b) zoom).y ≤ t.y ∧ t.y ≤ (tileAt ops (frac a) zoom).y) :=
+        (tileAt ops a.x (frac a) zoom).x ≤ t.x ∧ t.x ≤ (tileAt ops b.x (frac b) zoom).x ∧
+        (tileAt ops b.x (frac b) zoom).y ≤ t.y ∧ t.y ≤ (tileAt ops a.x (frac a) zoom).y) :=
   cover_bound_rect' ops frac zoom fuel a b
 
 /-- The cover of a collection whose members all have covers is their union. -/
